@@ -300,7 +300,13 @@ def run_case(ctx, desc):
     if r.shape != exp.shape:
         ctx.violation("shape", f"result shape {r.shape}, expected {exp.shape}")
         return
-    if not close(np.asarray(r.values, float), exp, kind):
+    ok = close(np.asarray(r.values, float), exp, kind)
+    if not ok and kind == "hostile" and op == "interp":
+        # the mean of two huge values is representable although their sum is not: (l + r) / 2 overflows to inf where
+        # l / 2 + r / 2 gives the mean itself.  The statement asks for the mean, so a result that follows either
+        # formulation throughout is accepted (found by the benign-change trial, DESIGN L20)
+        ok = close(np.asarray(r.values, float), expected(desc, da.values.astype(float), da.dims, opax, to_eff, "interp_halves")[0], kind)
+    if not ok:
         bad = np.argwhere(~np.isclose(r.values, exp, rtol=0, atol=0, equal_nan=True))
         w = tuple(bad[0]) if len(bad) else ()
         ctx.violation(
